@@ -32,6 +32,11 @@ import (
 // copy holds exactly the data and params it held at that moment, whatever the requests served afterwards (which
 // get the pooled context back) do. How many copies really saw their context reused is reported as engine stats.
 //
+// Panics and the OnPanic hook (`onpanic <hid>`, action `X`) are outside the interleaving model (it answers
+// `unsupported` for such a case): they are checked by the two implementation oracles only - every request equals
+// its solo run, and no request runs on the context of a request that is still in flight. The hook is a handler
+// program, so it parks: other requests are served while a panicking request is being recovered.
+//
 // Protocol: see lean/RuxModel/Drv/Conc.lean.
 type concEngine struct{}
 
@@ -85,6 +90,8 @@ type ccConfig struct {
 	hasNotFound   bool
 	hasNotAllowed bool
 	reqs          []ccReq
+	onPanic       int // handler id of the OnPanic hook (hasOnPanic)
+	hasOnPanic    bool
 }
 
 func ccInts(s string) []int {
@@ -109,7 +116,7 @@ func ccParseActs(s string) []ccAct {
 	var out []ccAct
 	for _, t := range strings.Split(s, ",") {
 		switch {
-		case t == "P" || t == "N" || t == "A" || t == "SP" || t == "CP":
+		case t == "P" || t == "N" || t == "A" || t == "SP" || t == "CP" || t == "X":
 			out = append(out, ccAct{kind: t})
 		case strings.HasPrefix(t, "WP:") || strings.HasPrefix(t, "SD:"):
 			p := strings.Split(t, ":")
@@ -209,6 +216,10 @@ func ccParse(ops []string) *ccConfig {
 			cfg.notFound, cfg.hasNotFound = ccInts(f[1]), true
 		case f[0] == "notallowed" && len(f) == 2:
 			cfg.notAllowed, cfg.hasNotAllowed = ccInts(f[1]), true
+		case f[0] == "onpanic" && len(f) == 2:
+			if id, err := strconv.Atoi(f[1]); err == nil {
+				cfg.onPanic, cfg.hasOnPanic = id, true
+			}
 		case f[0] == "req" && len(f) == 4:
 			p, _ := unhx(f[3])
 			cfg.reqs = append(cfg.reqs, ccReq{f[2], p})
@@ -360,6 +371,8 @@ func ccHandler(hid int, prog []ccAct) rux.HandlerFunc {
 			switch a.kind {
 			case "CP":
 				rs.kept = append(rs.kept, &ccKept{hid: hid, from: c, cp: c.Copy()})
+			case "X":
+				panic(fmt.Sprintf("boom-%d", hid))
 			case "P":
 				if !rs.solo {
 					rs.parked <- struct{}{}
@@ -476,6 +489,11 @@ func (cfg *ccConfig) build(caching bool) *ccRouter {
 	}
 	if cfg.hasNotAllowed {
 		r.NotAllowed(cfg.hs(cfg.notAllowed, mk)...)
+	}
+	if cfg.hasOnPanic {
+		// the hook is a handler program like the others: it can park, so that other requests are served while a
+		// panicking request is being recovered
+		r.OnPanic = mk(cfg.onPanic)
 	}
 	return out
 }
@@ -629,12 +647,28 @@ func (concEngine) Run(ops []string) (ans []string, oracle []string) {
 			}
 		}
 	}
+	// C03 for pooled contexts: the context a request runs on is not the context of another request that is still
+	// in flight (parked). Evaluated after every step of request i against the requests parked during that step.
+	ccxReported := false
+	ccxShared := func(i int) {
+		if ccxReported || reqs[i].ctx == nil {
+			return
+		}
+		for j, other := range reqs {
+			if j != i && other.started && !other.finished && other.ctx == reqs[i].ctx {
+				ccxReported = true
+				oracle = append(oracle, fmt.Sprintf("C03 pooled context: request %d (%s %s) runs on the context of request %d (%s %s), which has not finished; schedule so far: %s",
+					i, cfg.reqs[i].method, cfg.reqs[i].path, j, cfg.reqs[j].method, cfg.reqs[j].path, strings.Join(schedule, " ")))
+			}
+		}
+	}
 	finishAll := func() {
 		for i, rs := range reqs {
 			for n := 0; !rs.finished && !hung && n < 100000; n++ {
 				if !rs.adv(router().r) {
 					hang(i)
 				}
+				ccxShared(i) // request i was in flight during this step
 			}
 		}
 	}
@@ -650,7 +684,7 @@ func (concEngine) Run(ops []string) (ans []string, oracle []string) {
 				return "bad-op"
 			}
 			switch f[0] {
-			case "opt", "prog", "use", "group", "route", "notfound", "notallowed", "req", "tblend":
+			case "opt", "prog", "use", "group", "route", "notfound", "notallowed", "req", "tblend", "onpanic":
 				return "ok"
 			case "caps":
 				if len(f) != 3 {
@@ -716,11 +750,15 @@ func (concEngine) Run(ops []string) (ans []string, oracle []string) {
 					return "unsupported"
 				}
 				schedule = append(schedule, f[1])
+				ccxWasOver := reqs[i].finished // a step of a finished request does nothing
 				if !reqs[i].adv(router().r) {
 					hang(i)
 					return "hang"
 				}
 				checkKept()
+				if !ccxWasOver {
+					ccxShared(i)
+				}
 				return reqs[i].show(reqs[i].phase()) + " ;; " + ccKeys(router().r)
 			case "end":
 				schedule = append(schedule, "end")
